@@ -118,6 +118,7 @@ func (s C07) Events(env world.Env, mm mc.Model) []string {
 		}
 		evs = append(evs, "PostOnce:U1:400:1", "Post:U1:max:1") // the largest size stateless validation accepts
 		evs = append(evs, "PostNegExp:U1:400:1")                // Expires = -1 passes stateless validation
+		evs = append(evs, "PostPastExp:U1:400:1")               // Expires = 1: positive, but a height that has already passed
 		// the same post made by a contract through the chain's wasm binding (U1 standing in for the contract account)
 		evs = append(evs, "WasmPost:U1:400:1", "WasmPost:U1:neg:1", "WasmPost:U1:max:2")
 	}
@@ -231,7 +232,7 @@ func (C07) Apply(env world.Env, mm mc.Model, ev string) mc.Step {
 		if env.Deliver(storagetypes.NewMsgBuyStorage(a, a, 30, gbs*1_000_000_000, "ujkl")).OK() {
 			st.Outcome = "ok"
 		}
-	case "Post", "PostOnce", "PostNegExp", "WasmPost":
+	case "Post", "PostOnce", "PostNegExp", "PostPastExp", "WasmPost":
 		u := p[1]
 		f := c07Files[p[2]]
 		mp, _ := strconv.ParseInt(p[3], 10, 64)
@@ -242,6 +243,9 @@ func (C07) Apply(env world.Env, mm mc.Model, ev string) mc.Step {
 		}
 		if p[0] == "PostNegExp" {
 			msg.Expires = -1
+		}
+		if p[0] == "PostPastExp" {
+			msg.Expires = 1
 		}
 		// a post at an existing key (same content, owner and block) replaces that file, whose footprint is released
 		var replaced int64
